@@ -33,14 +33,15 @@ Judged(b) == [sheets |-> [i \in DOMAIN b.sheets |->
                   merges |-> b.sheets[i].merges, names |-> b.sheets[i].names, comments |-> b.sheets[i].comments,
                   tables |-> b.sheets[i].tables, imgs |-> b.sheets[i].imgs, charts |-> b.sheets[i].charts,
                   nole |-> b.sheets[i].nole, vmlnoimg |-> b.sheets[i].vmlnoimg]],
-              gnames |-> b.gnames, active |-> b.active, macro |-> b.macro]
+              gnames |-> b.gnames, macro |-> b.macro]
+              \* (the active index is taken from the getters at every save: what remove_sheet does to it is not C02's business)
 NoDupModel(M) == \A i \in DOMAIN M.sheets :
                    /\ Len(M.sheets[i].cells) = Cardinality({<<x.r, x.c>> : x \in ToSet(M.sheets[i].cells)})
                    /\ Len(M.sheets[i].links) = Cardinality({<<x.r, x.c>> : x \in ToSet(M.sheets[i].links)})
 ModelDiff(a, b) ==
   IF DOMAIN a.sheets # DOMAIN b.sheets THEN <<"sheet count", Len(a.sheets), Len(b.sheets)>>
   ELSE LET bad == {i \in DOMAIN a.sheets : a.sheets[i] # b.sheets[i]} IN
-       IF bad = {} THEN <<"book", [gnames |-> <<a.gnames, b.gnames>>, active |-> <<a.active, b.active>>, macro |-> <<a.macro, b.macro>>]>>
+       IF bad = {} THEN <<"book", [gnames |-> <<a.gnames, b.gnames>>, macro |-> <<a.macro, b.macro>>]>>
        ELSE LET i == MinOf(bad)
                 fs == {f \in DOMAIN a.sheets[i] : a.sheets[i][f] # b.sheets[i][f]}
                 f == CHOOSE x \in fs : TRUE
@@ -54,7 +55,7 @@ InContract(e) ==
     [] e.a = "RemoveSheet" -> HasS(e) /\ Len(wb.sheets) >= 2
     [] e.a = "RenameSheet" -> HasS(e) /\ ~HasSheetNamed(wb, e.name) /\ wb.sheets[e.s].charts = 0 /\ wb.sheets[e.s].names = <<>>
                               \* (chart series and the sheet's defined names spell the sheet name; set_sheet_name rewrites the latter)
-    [] e.a = "SetActive"   -> e.i \in 0..(Len(wb.sheets) - 1)
+    [] e.a = "SetActive"   -> e.i \in 0..(Len(wb.sheets) - 1)          \* only existing sheets are made active
     [] e.a \in {"SetCell", "RemoveCell", "Link", "Comment", "Image", "Chart", "RowHeight"} ->
           HasS(e) /\ e.r \in 1..MaxRow /\ e.c \in 1..MaxCol
     [] e.a = "StyleCell" -> HasS(e) /\ e.r \in 1..MaxRow /\ e.c \in 1..MaxCol         \* a blank style carrier
@@ -109,7 +110,7 @@ DevMatch(c, p, off, offs, E) ==
     [] c = "order"    -> /\ off = {p.sheets[i].part : i \in {j \in DOMAIN wb.sheets \cap DOMAIN p.sheets :
                                                               wb.sheets[j].tables # <<>> /\ wb.sheets[j].nole > 0}}
                          /\ \A i \in DOMAIN p.sheets : p.sheets[i].part \in off => TablesBeforeOle(p.sheets[i].children)
-    [] c = "active"   -> wb.active >= Len(wb.sheets) /\ off = {wb.active}
+    [] c = "active"   -> E.model.active >= Len(wb.sheets) /\ off = {E.model.active}
     [] OTHER -> FALSE
 ClauseKF == [notwf |-> "C02-KF8", sstidx |-> "C02-KF8", untyped |-> "C02-KF10", dangling |-> "C02-KF11", order |-> "C02-KF9", active |-> "C02-KF3"]
 ClauseAccepted(c, p, offs, E) ==
@@ -215,7 +216,7 @@ SaveStep(e) ==
   ELSE LET offs == Offences(e.pkg)
            badc == BadClauses(e.pkg, offs, e)
            cont == IF offs.zip # {} \/ (offs.notwf # {} /\ "notwf" \in badc) THEN {} ELSE ContentProblems(e)
-       IN /\ wb' = wb
+       IN /\ wb' = [wb EXCEPT !.active = e.model.active]
           /\ IF badc = {} /\ cont = {}
              THEN /\ \A id \in ClauseHits(offs) \cup ContentHits(e) : KFHit(id, l)
                   /\ IF api /\ Drift(e.pkg) # <<>> THEN Mismatch(l, <<"drift", Drift(e.pkg)>>) ELSE TRUE
